@@ -232,11 +232,21 @@ Inductive acc := AVle | ALle | ASle.
 Definition acc_pair (a : acc) : phase * phase :=
   match a with AVle => (Pg, Pl) | ALle => (PL, Pl) | ASle => (Ps, Pl) end.
 
-(* .vle / .lle / .sle : extend the phase set, then hand out the cached solver object *)
+(* Stream.vle/.lle/.sle first rewrite the phase label: 's' -> 'l' for vle, anything but l/L -> 'l' for
+   lle, anything but l/s -> 'l' for sle *)
+Definition acc_phase (a : acc) (p : phase) : phase :=
+  match a with
+  | AVle => if phase_eqb p Ps then Pl else p
+  | ALle => if phase_eqb p Pl || phase_eqb p PL then p else Pl
+  | ASle => if phase_eqb p Pl || phase_eqb p Ps then p else Pl
+  end.
+
+(* .vle / .lle / .sle : a Stream relabels and becomes a MultiStream of the two equilibrium phases; a
+   MultiStream extends its phase set; then the cached solver object is handed out *)
 Definition accessor (s : st) (a : acc) : res st :=
   let '(x, y) := acc_pair a in
   match par s with
-  | Single p c => set_phases s (pset_of [p; x; y]) false
+  | Single p c => set_phases (set_par s (Single (acc_phase a p) c)) (pset_of [x; y]) false
   | Multi r =>
       if rset r x && rset r y then Ok s
       else set_phases s (pset_union (rset r) (pset_of [x; y])) false
@@ -317,14 +327,22 @@ Definition copy_rows (h : list vec) (r : rmap) (d : phase -> option vec) : list 
 Definition restore (s : st) (d : sdata) : res st :=
   let t : pset := fun p => isSome (sd_rows d p) in
   do s1 <- set_phases (empty_all s) t false;
-  do s2 <- match par s1, sd_single d with
-           | Single p c, Some q =>
-               match sd_rows d q with
-               | Some v => Ok (set_par (set_heap s1 (upd (heap s1) c v)) (Single q c))
+  do s2 <- match par s1 with
+           | Single p c =>
+               (* snapshot of a Stream, or of a one-phase MultiStream (imol.get_phase(phases[0])) *)
+               match (match sd_single d with Some q => Some q | None => hd_error (pset_list t) end) with
+               | Some q =>
+                   match sd_rows d q with
+                   | Some v => Ok (set_par (set_heap s1 (upd (heap s1) c v)) (Single q c))
+                   | None => Err EOther
+                   end
                | None => Err EOther
                end
-           | Multi r, None => Ok (set_heap s1 (copy_rows (heap s1) r (sd_rows d)))
-           | _, _ => Err EOther     (* snapshot of a one-phase MultiStream: AttributeError *)
+           | Multi r =>
+               match sd_single d with
+               | None => Ok (set_heap s1 (copy_rows (heap s1) r (sd_rows d)))
+               | Some _ => Err EOther      (* not reachable: one label gives a Stream *)
+               end
            end;
   Ok (set_tcs s2 (upd (tcs s2) (ptc s2) (sd_T d, sd_P d))).
 
